@@ -320,6 +320,9 @@ class Sync(Shape):
     def make(self, ctx, name):
         from .extmodels import SSync
         st = dict(self.st)
+        for k in ("flag", "held"):
+            if isinstance(st.get(k), Shape):
+                st[k] = st[k].make(ctx, "%s.%s" % (name, k))
         if self.kind == "queue":
             st["items"] = [sh.make(ctx, "%s.q[%d]" % (name, i)) if isinstance(sh, Shape) else sh
                            for i, sh in enumerate(st.get("items", []))]
@@ -341,7 +344,8 @@ class Sync(Shape):
                           else encode_concrete(sh) for i, sh in enumerate(self.st.get("items", []))]
             d["extra"] = vals.get(name + ".extra", 0) if self.st.get("extra") else 0
         else:
-            d["st"] = {k: v for k, v in self.st.items() if isinstance(v, (bool, int))}
+            d["st"] = {k: (v if isinstance(v, (bool, int)) else bool(vals.get("%s.%s" % (name, k))))
+                       for k, v in self.st.items() if isinstance(v, (bool, int, Shape))}
         return d
 
 
